@@ -1,0 +1,16 @@
+//go:build verif
+
+package v2
+
+// Machine-checked contracts (govc, see /verif/DESIGN.md). Comment-only file.
+
+// ---- C29 ("no payload byte is sent before the extended ACL has been evaluated against the
+// object's header"): the object headers a table is judged on. A request that reads payload is
+// judged on the object's header - taken from this node's storage or, failing that, reported as
+// incomplete so that the verdict stays open until the header arrives; the bare address
+// (container and object ID, reported as complete) stands in for the header only for requests
+// that read no payload.
+//@ callrule c29_payload_reads_judged_on_the_object_header in (*cfg).readObjectHeaders
+//@   property C29
+//@   callee eacl.addressHeaders
+//@   requires [range_request_is_judged_on_the_object_header] !isType(m.req, object.GetRangeRequest)
